@@ -64,7 +64,7 @@ class BoxEngine(Engine):
     max_ops = 40
     expected_probes = ['cache_warm_when_vects_changed', 'refused_raised', 'scribble_returned',
                        'scribble_passed', 'on_face_exact', 'nonnorm_cell', 'reexpress_norm',
-                       'reexpress_nonnorm', 'list_input', 'scalar_point', 'model_roundtrip', 'model_of_other_cell_read', 'noncontiguous_points', 'cube_rotated_cell', 'bulk_points_query', 'classmethod_same_arguments_again', 'integer_typed_lengths', 'integer_typed_angles', 'refused_vector_of_wrong_length', 'integer_typed_cartesian_points', 'bystander_call', 'earlier_definition_repeated',
+                       'reexpress_nonnorm', 'list_input', 'scalar_point', 'model_roundtrip', 'model_of_other_cell_read', 'noncontiguous_points', 'cube_rotated_cell', 'bulk_points_query', 'classmethod_same_arguments_again', 'integer_typed_lengths', 'integer_typed_angles', 'refused_vector_of_wrong_length', 'refused_origin_of_wrong_length', 'lammps_lengths_of_rotated_cell_refused', 'integer_typed_cartesian_points', 'bystander_call', 'earlier_definition_repeated',
                        'scribble_returned_planes']
     rule = ('Each run drives ONE Box object (occasionally replaced by a constructor or deepcopy) through up to 40 '
             'seeded operations: the five setter families (set_vectors, set_abc, set_lengths, set_hi_los, '
@@ -272,13 +272,18 @@ class BoxEngine(Engine):
         k = ctx.wchoice([('refuse', 1.0), ('scribble_returned', 1.0), ('scribble_passed', 1.0)])
         if k == 'refuse':
             what = r.choice(['abc_angle', 'lengths_nonpos', 'hi_lo_inverted', 'set_unknown', 'set_extra',
-                             'ctor_model_extra', 'vectors_bad_shape', 'vectors_bad_shape'])
+                             'ctor_model_extra', 'vectors_bad_shape', 'vectors_bad_shape', 'origin_bad_length', 'origin_bad_length'])
             op = {'op': 'refuse', 'what': what}
             s = st['scale'] * 3.0
             if what == 'abc_angle':
                 ang = [90.0, 90.0, 90.0]
                 ang[r.randrange(3)] = r.choice([0.0, 180.0, -20.0, 200.0])
                 op['abc'] = [s, s * 1.5, s * 2.0] + ang
+            elif what == 'origin_bad_length':
+                # a complete, valid new cell together with an origin that is not a 3-vector
+                op['family'] = r.choice(['vects', 'vectors', 'abc', 'lengths', 'hi_los'])
+                op['ncomp'] = r.choice([2, 4])
+                op['via'] = r.choice(['method', 'set'])
             elif what == 'vectors_bad_shape':
                 # three new edge vectors of which one is not a 3-vector: nothing of the call may stick
                 op['bad'] = r.randrange(3)
@@ -658,6 +663,19 @@ class BoxEngine(Engine):
             b_vec = ctx.must('C01.B3', am.Box, avect=box.avect, bvect=box.bvect, cvect=box.cvect, origin=box.origin, klass='re/vectors')
             if not close(b_vec.vects, V, atol=atol) or not close(b_vec.origin, o, atol=otol):
                 raise Violation('C01.B3', {'what': 'rebuilt from vectors differs', 'vects': b_vec.vects}, klass='re/vectors')
+            # the LAMMPS lengths and tilts of a rotated cell: refused (twice, by a caller that tries again), or - if handed out -
+            # those of the same cell up to a rotation
+            for attempt in (1, 2):
+                ok, vals = ctx.sut(lambda: [getattr(box, n) for n in ('lx', 'ly', 'lz', 'xy', 'xz', 'yz')])
+                if not ok:
+                    ctx.probe('lammps_lengths_of_rotated_cell_refused')
+                    continue
+                lx, ly, lz, xy, xz, yz = [float(x) for x in vals]
+                ok2, nb2 = ctx.sut(am.Box, lx=lx, ly=ly, lz=lz, xy=xy, xz=xz, yz=yz)
+                G3 = (nb2.vects @ nb2.vects.T) if ok2 else None
+                if G3 is None or not close(G3, G, atol=1e-8 * float(np.abs(G).max())):
+                    raise Violation('C01.B3', {'what': 'LAMMPS lengths and tilts handed out for a rotated cell are not those of the cell',
+                                               'attempt': attempt, 'values': [lx, ly, lz, xy, xz, yz], 'gram': G3, 'want': G}, klass='re/nonnorm-lengths')
         ctx.ev('op', 'reexpress', None, {'norm': bool(norm)})
 
     # -- data model
@@ -694,6 +712,31 @@ class BoxEngine(Engine):
         elif what == 'hi_lo_inverted':
             l = op['l']
             ok, v = ctx.sut(box.set_hi_los, xlo=0.0, xhi=l[0], ylo=0.0, yhi=l[1], zlo=0.0, zhi=l[2])
+        elif what == 'origin_bad_length':
+            Vn = np.diag(np.abs(np.diag(st['V'])) * 1.7 + 0.5 * float(np.abs(st['V']).max()))
+            op_new = Vn
+            bad_o = ([0.5, -0.25, 1.0, 2.0])[:int(op.get('ncomp', 2))]
+            fam = op.get('family', 'vects')
+            if fam == 'vects':
+                kw = {'vects': Vn}
+                fn = box.set
+            elif fam == 'vectors':
+                kw = {'avect': Vn[0], 'bvect': Vn[1], 'cvect': Vn[2]}
+                fn = box.set if op.get('via') == 'set' else box.set_vectors
+            elif fam == 'abc':
+                kw = {'a': Vn[0, 0], 'b': Vn[1, 1], 'c': Vn[2, 2]}
+                fn = box.set if op.get('via') == 'set' else box.set_abc
+            elif fam == 'lengths':
+                kw = {'lx': Vn[0, 0], 'ly': Vn[1, 1], 'lz': Vn[2, 2]}
+                fn = box.set if op.get('via') == 'set' else box.set_lengths
+            else:
+                kw = {'xlo': 0.0, 'xhi': Vn[0, 0], 'ylo': 0.0, 'yhi': Vn[1, 1], 'zlo': 0.0, 'zhi': Vn[2, 2]}
+                fn = box.set if op.get('via') == 'set' else box.set_hi_los
+            if fam == 'hi_los':
+                ok, v = ctx.sut(fn, **dict(kw, xlo=bad_o))          # a bound that is not a number
+            else:
+                ok, v = ctx.sut(fn, origin=bad_o, **kw)
+            ctx.probe('refused_origin_of_wrong_length')
         elif what == 'vectors_bad_shape':
             rows = [list(map(float, 1.5 * st['V'][(i + 1) % 3] + 0.25 * st['V'][i])) for i in range(3)]
             k = int(op.get('bad', 2)) % 3
@@ -716,6 +759,14 @@ class BoxEngine(Engine):
             if what == 'set_extra' and close(Vn, st['V'] * 2, atol=1e-9 * float(np.abs(Vn).max())):
                 st['V'] = st['V'] * 2
                 self._vects_changed(ctx, st)
+            if what == 'origin_bad_length':
+                # the cell part of the request was valid: it may have been taken before the origin was looked at
+                new = np.diag(np.abs(np.diag(st['V'])) * 1.7 + 0.5 * float(np.abs(st['V']).max()))
+                if close(Vn, new, atol=1e-9 * float(np.abs(new).max())):
+                    st['V'] = new
+                    if op.get('family') == 'hi_los':
+                        st['o'] = np.array(box.origin, dtype=float) if close(np.array(box.origin)[1:], np.zeros(2), atol=0) else st['o']
+                    self._vects_changed(ctx, st)
             return True
         # the statement does not demand a refusal; garbage went in, so re-seat the box
         ctx.probe('refusal_not_raised')
